@@ -15,8 +15,16 @@ def run(repo):
     s += "def MAX_STORED_SNAPSHOT : Nat := %d\n\n" % v
     for fn in ("add_delta", "set_delta_tick"):
         body = exlib.fn_body(src, fn, 0, rel)
-        s += "/-- integer literals of `Storage::%s` in %s, in source order -/\n" % (fn, rel)
-        s += "def lits_%s : List Nat := %s\n\n" % (fn, exlib.lean_nat_list(exlib.int_literals(body)))
+        # sorted, file-level constants resolved: order and naming of constants carry no meaning
+        vals = list(exlib.int_literals(body))
+        for m in re.finditer(r"\bconst\s+([A-Z][A-Z0-9_]*)\s*:", src):
+            try:
+                cv = exlib.const_expr(src, m.group(1), rel)
+            except exlib.ExtractError:
+                continue
+            vals += [cv] * len(re.findall(r"\b%s\b" % m.group(1), body))
+        s += "/-- integer literals of `Storage::%s` in %s, constants resolved, sorted -/\n" % (fn, rel)
+        s += "def lits_%s : List Nat := %s\n\n" % (fn, exlib.lean_nat_list(sorted(vals)))
     body = exlib.fn_body(src, "new_builder", 0, rel)
     cont = re.search(r"self\.snaps\.front\(\)", body) is not None and re.search(r"clone_from\(\s*&\s*newest\.snap\s*\)", body) is not None \
         and re.search(r"\.recycle\(\)", body) is not None
